@@ -1,8 +1,168 @@
-(* Property C12 - only statements closed by `exact`, each followed by Print Assumptions. *)
+(* Property C12 - "Signals reach exactly the connected slots, safely under re-entrancy".
+   Only statements closed by `exact`, each followed by Print Assumptions, plus non-vacuity Examples.
+
+   Objects.  Model = CallbackModel (slot lists with connected/connecting/disconnected states, dirty flag,
+   activation chain with invalidation, both destructor loops, liveness flag on every object: touching a
+   destroyed object is `Fail`).  Reference object = CallbackSpec (live connections with serial numbers;
+   per signal the watermark of the outermost emission in progress and one cursor per emission).
+   Slot behaviours are scripts `sc : listener -> slot -> list action`, universally quantified; a script may
+   connect, disconnect, emit again, destroy listeners or emitters (itself included); nesting is bounded by
+   `maxd` only (emissions deeper than maxd are skipped by the client on both sides) and every theorem holds
+   for every fuel, the model running out of fuel exactly when the reference object does.
+   `R st p` is the refinement relation (CallbackInv.v): liveness flags agree, every live signal's slot list
+   minus the entries marked disconnected is the reference object's connection list of that signal in order,
+   connecting <-> made after the watermark, every activation's iterator sits where the matching cursor is,
+   dirty/activation flags are consistent, destroyed emitters keep only an invalidated activation chain,
+   and every live listener's per-emitter list has the multiplicities of the reference object's connections.
+
+   Clause of the property                                              Theorem
+   ------------------------------------------------------------------  -------------------------------------
+   bookkeeping describes exactly the live connections, initially        C12_refinement_init
+   ... and after every top-level operation (any script, any nesting)    C12_step_refines, C12_bookkeeping_after_every_history,
+                                                                        C12_emitter_side_exact, C12_listener_side_exact,
+                                                                        C12_related_states_are_consistent
+   ... and whenever a slot returns inside an emission                   C12_nested_refines
+   an emission invokes, in connection order, exactly the slots          C12_logs_equal_reference (model log = reference log,
+   connected before the outermost emission began and still connected    all histories), with the reference object's turn rule
+   at their turn                                                        characterised by C12_turn_sound / C12_turn_oldest /
+                                                                        C12_turn_none_complete
+   never a slot after disconnect / after its listener or the emitter    C12_invoked_slot_is_live, C12_never_touches_dead_object
+   was destroyed; connecting, disconnecting, emitting recursively and
+   destroying from inside a slot are safe (no access to a dead object)
+   after the outermost emission no disconnected/connecting residue      C12_bookkeeping_after_every_history (NoResidue),
+                                                                        C12_cleanup_leaves_connected
+   the reference object keeps its emission stacks balanced              C12_reference_stacks_balanced *)
 From Coq Require Import List Arith Bool.
-From Callback Require Import CallbackSpec CallbackModel CallbackProofs.
+From Callback Require Import CallbackSpec CallbackModel CallbackLists CallbackInv CallbackOps CallbackDestroy CallbackSim CallbackMain CallbackProofs.
 Import ListNotations.
 
-Theorem cleanup_leaves_connected : forall sl, forallb is_conn (cleanup sl) = true.
+Theorem C12_refinement_init : forall ne nl nsg, R (init ne nl nsg) (sp_init ne nl nsg) /\ Quiet (sp_init ne nl nsg).
+Proof. exact (fun ne nl nsg => conj (R_init ne nl nsg) (Quiet_init ne nl nsg)). Qed.
+Print Assumptions C12_refinement_init.
+
+Theorem C12_step_refines : forall sc maxd st p fuel a, R st p ->
+  match step sc maxd fuel st a, spec_step sc maxd fuel p a with
+  | Done (st', lg), Done (p', lg') => lg = lg' /\ R st' p'
+  | OutOfFuel lg, OutOfFuel lg' => lg = lg'
+  | _, _ => False
+  end.
+Proof. exact step_refines. Qed.
+Print Assumptions C12_step_refines.
+
+Theorem C12_nested_refines : forall sc maxd fuel d st p lg acts, R st p ->
+  match exec sc maxd fuel d st lg acts, sexec sc maxd fuel d p lg acts with
+  | Done (st', lg1), Done (p', lg2) => lg1 = lg2 /\ R st' p'
+  | OutOfFuel l1, OutOfFuel l2 => l1 = l2
+  | _, _ => False
+  end.
+Proof. exact nested_refines. Qed.
+Print Assumptions C12_nested_refines.
+
+Theorem C12_logs_equal_reference : forall sc maxd fuel ne nl nsg ops,
+  match hrun (step sc maxd fuel) (init ne nl nsg) ops, hrun (spec_step sc maxd fuel) (sp_init ne nl nsg) ops with
+  | HDone st' lgs, HDone p' lgs' => lgs = lgs' /\ R st' p' /\ Quiet p'
+  | HFuel, HFuel => True
+  | _, _ => False
+  end.
+Proof. exact histories_match. Qed.
+Print Assumptions C12_logs_equal_reference.
+
+Theorem C12_never_touches_dead_object : forall sc maxd fuel ne nl nsg ops,
+  hrun (step sc maxd fuel) (init ne nl nsg) ops <> HFail.
+Proof. exact histories_safe. Qed.
+Print Assumptions C12_never_touches_dead_object.
+
+Theorem C12_bookkeeping_after_every_history : forall sc maxd fuel ne nl nsg ops st lgs,
+  hrun (step sc maxd fuel) (init ne nl nsg) ops = HDone st lgs -> Book st /\ NoResidue st.
+Proof. exact histories_bookkeeping. Qed.
+Print Assumptions C12_bookkeeping_after_every_history.
+
+Theorem C12_related_states_are_consistent : forall st p, R st p -> Book st /\ (Quiet p -> NoResidue st).
+Proof. exact (fun st p H => conj (R_Book st p H) (R_NoResidue st p H)). Qed.
+Print Assumptions C12_related_states_are_consistent.
+
+Theorem C12_emitter_side_exact : forall st p e sg, R st p -> sp_E p e = true ->
+  map (fun x => (s_recv x, s_slot x)) (filter nd (slotsOf (sdo st e sg))) = map (fun c => (c_l c, c_s c)) (conns p e sg).
+Proof. exact R_emitter_side. Qed.
+Print Assumptions C12_emitter_side_exact.
+
+Theorem C12_listener_side_exact : forall st p l e sg s, R st p -> sp_L p l = true ->
+  count (sigeq sg s) (lst st l e) = count (ckey e sg l s) (sp_conns p).
+Proof. exact R_listener_side. Qed.
+Print Assumptions C12_listener_side_exact.
+
+Theorem C12_invoked_slot_is_live : forall st p e sg st1 x, R st p -> sp_E p e = true -> em_cur (sp_em p e sg) <> [] ->
+  emit_next st e sg = Some (st1, Some x) ->
+  exists c, In c (sp_conns p) /\ c_e c = e /\ c_sg c = sg /\ c_l c = s_recv x /\ c_s c = s_slot x /\
+            c_seq c < em_w (sp_em p e sg) /\ sp_L p (s_recv x) = true /\ l_alive (st_L st (s_recv x)) = true.
+Proof. exact invoked_slot_is_live. Qed.
+Print Assumptions C12_invoked_slot_is_live.
+
+Theorem C12_turn_sound : forall p e sg c, sp_turn p e sg = Some c ->
+  In c (sp_conns p) /\ c_e c = e /\ c_sg c = sg /\ c_seq c < em_w (sp_em p e sg) /\
+  exists k ks, em_cur (sp_em p e sg) = k :: ks /\ k <= c_seq c.
+Proof. exact sp_turn_sound. Qed.
+Print Assumptions C12_turn_sound.
+
+Theorem C12_turn_oldest : forall p e sg c, sp_turn p e sg = Some c ->
+  exists l1 l2, sp_conns p = l1 ++ c :: l2 /\
+    forall c', In c' l1 -> on_es e sg c' = true -> c_seq c' < em_w (sp_em p e sg) ->
+               exists k ks, em_cur (sp_em p e sg) = k :: ks /\ c_seq c' < k.
+Proof. exact sp_turn_first. Qed.
+Print Assumptions C12_turn_oldest.
+
+Theorem C12_turn_none_complete : forall p e sg k ks, em_cur (sp_em p e sg) = k :: ks -> sp_turn p e sg = None ->
+  forall c, In c (sp_conns p) -> on_es e sg c = true -> k <= c_seq c -> em_w (sp_em p e sg) <= c_seq c.
+Proof. exact sp_turn_none. Qed.
+Print Assumptions C12_turn_none_complete.
+
+Theorem C12_reference_stacks_balanced : forall sc maxd fuel p a p' lg,
+  spec_step sc maxd fuel p a = Done (p', lg) -> forall e sg, em_cur (sp_em p' e sg) = em_cur (sp_em p e sg).
+Proof. exact (fun sc maxd fuel p a p' lg H => proj1 (spec_frame sc maxd fuel) 0 p [] [a] p' lg H). Qed.
+Print Assumptions C12_reference_stacks_balanced.
+
+Theorem C12_cleanup_leaves_connected : forall sl, forallb is_conn (cleanup sl) = true.
 Proof. exact cleanup_all_connected. Qed.
-Print Assumptions cleanup_leaves_connected.
+Print Assumptions C12_cleanup_leaves_connected.
+
+(* ---- non-vacuity: concrete histories on which the hypotheses hold and something happens ---- *)
+(* slot 0.0 disconnects, re-connects and disconnects itself inside one emission, then its listener dies
+   (the history that used to leave a dangling slot): the log is one invocation, then nothing *)
+Definition ex_sc1 : scripts := fun l s =>
+  match l, s with 0, 0 => [ADisconnect 0 0 0 0; AConnect 0 0 0 0; ADisconnect 0 0 0 0] | _, _ => [] end.
+Definition ex_ops1 := [AConnect 0 0 0 0; AEmit 0 0; ADestroyL 0; AEmit 0 0].
+Example ex1_model : exists st, hrun (step ex_sc1 3 100) (init 2 2 1) ex_ops1 = HDone st [[]; [mkInv 0 0 0 0]; []; []].
+Proof. eexists. vm_compute. reflexivity. Qed.
+Example ex1_spec : exists p, hrun (spec_step ex_sc1 3 100) (sp_init 2 2 1) ex_ops1 = HDone p [[]; [mkInv 0 0 0 0]; []; []].
+Proof. eexists. vm_compute. reflexivity. Qed.
+
+(* nested: slot 0.0 re-emits; slot 1.1 (pending in both emissions) is disconnected by slot 0.2 of the inner one,
+   listener 1 is destroyed by slot 0.3, the emitter by slot 1.0 of another emitter's signal *)
+Definition ex_sc2 : scripts := fun l s =>
+  match l, s with
+  | 0, 0 => [AEmit 0 0; AConnect 0 0 1 2]
+  | 0, 2 => [ADisconnect 0 0 1 1]
+  | 0, 3 => [ADestroyL 1; AEmit 1 0]
+  | 1, 0 => [ADestroyE 0]
+  | _, _ => []
+  end.
+Definition ex_ops2 := [AConnect 0 0 0 0; AConnect 0 0 0 2; AConnect 0 0 1 1; AConnect 0 0 0 3; AConnect 1 0 1 0;
+                       AEmit 0 0; AEmit 0 0; AConnect 1 0 0 3; AEmit 1 0].
+Example ex2_agree :
+  match hrun (step ex_sc2 2 200) (init 2 2 1) ex_ops2, hrun (spec_step ex_sc2 2 200) (sp_init 2 2 1) ex_ops2 with
+  | HDone _ l1, HDone _ l2 => l1 = l2 /\ length (concat l1) = 14
+  | _, _ => False
+  end.
+Proof. vm_compute. split; reflexivity. Qed.
+
+(* the turn rule fires on a concrete state: cursor 0, watermark 2, two connections *)
+Example ex_turn : sp_turn (sp_begin (sp_connect (sp_connect (sp_init 1 1 1) 0 0 0 0) 0 0 0 1) 0 0) 0 0 = Some (mkConn 0 0 0 0 0).
+Proof. reflexivity. Qed.
+Example ex_emit_next : exists st1, 
+  match connect (init 1 1 1) 0 0 0 0 with
+  | Some st => match emit_begin st 0 0 with Some st' => emit_next st' 0 0 | None => None end
+  | None => None
+  end = Some (st1, Some (mkSlot 0 0 Connected)).
+Proof. eexists. vm_compute. reflexivity. Qed.
+Example ex_cleanup : cleanup [mkSlot 0 0 Disconnected; mkSlot 0 1 Connecting; mkSlot 1 1 Connected] = [mkSlot 0 1 Connected; mkSlot 1 1 Connected].
+Proof. reflexivity. Qed.
